@@ -44,6 +44,8 @@ def _register(kind, arg, val):
             else:
                 z, p, q, w = a2, v2, arg, val
             ex.assume(z3.And(z3.Implies(q == p, w == z), z3.Implies(w == z, q == p), z3.Implies(q < p, w < z), z3.Implies(q > p, w > z)), axiom=True)
+            # symmetry across the pair: Phi(-PhiInv(q)) = 1 - q
+            ex.assume(z3.And(z3.Implies(z == -w, p == 1 - q), z3.Implies(p == 1 - q, z == -w)), axiom=True)
     terms.append((kind, arg, val))
 
 
